@@ -40,7 +40,11 @@ def _cases(draw):
             "length": draw(gc.ffloat(0.5, 10.0)),
             "t": [draw(gc.ffloat(-5.0, 5.0)) for _ in range(3)],
             "k": [[draw(st.integers(-3, 3)) for _ in range(3)] for _ in range(n)],
-            "weight": draw(st.booleans())}
+            "weight": draw(st.booleans()),
+            # exact boundary of get_minimized_cell: extent == min_size in floating point (orthogonal power-of-two cell, atoms on a
+            # 1/16 grid, min_size taken from the extent); a quarter of the cases
+            "dyadic": None if draw(st.integers(0, 3)) else {"L": [draw(st.sampled_from([4.0, 8.0, 16.0])) for _ in range(3)],
+                                                               "grid": [[draw(st.integers(-8, 24)) for _ in range(3)] for _ in range(draw(st.integers(2, 5)))]}}
 
 
 def strategy(tier):
@@ -177,6 +181,24 @@ def run_case(desc):
                         out.fail("min-inside", "scaled positions along the axis span [%.9g, %.9g]" % (sp.min(), sp.max()))
                     elif ext < ms and abs((sp.min() + sp.max()) / 2 - 0.5) > ftol:
                         out.fail("min-centred", "padded cell not centred: midpoint %.9g" % ((sp.min() + sp.max()) / 2))
+
+    if desc.get("dyadic"):
+        dy = desc["dyadic"]
+        Ld = np.array(dy["L"], float)
+        fd = np.array(dy["grid"], float) / 16.0
+        pd = fd * Ld
+        extd = float(np.ptp(fd[:, axis]) * Ld[axis])
+        if 0.1 <= extd <= 3.0:
+            out.cls("min:extent==min_size")
+            atd = Atoms(numbers=[6] * len(pd), positions=pd, cell=np.diag(Ld), pbc=pbc)
+            ok, md = call(mg.get_minimized_cell, atd.copy(), axis, extd)
+            if not ok:
+                fail_exc("get_minimized_cell(extent==min_size)", md)
+            else:
+                L1d = float(np.linalg.norm(np.asarray(md.get_cell())[axis]))
+                mpd = md.get_positions()
+                if abs(L1d - extd) > 1e-9 or np.abs((mpd[:, None] - mpd[None, :]) - (pd[:, None] - pd[None, :])).max() > 1e-9:
+                    out.fail("min-length", "extent == min_size == %.6g exactly: cell length %.9g / displacements changed" % (extd, L1d), key="min-length-at-equality")
 
     # ---- swap_basis -------------------------------------------------------------------------------------------
     a = int(desc["swap"][0]); b = (a + int(desc["swap"][1])) % 3
